@@ -1,11 +1,11 @@
 SPECIFICATION Spec
 CONSTANTS
   Deviations <- AllDevs
-  MaxNodes = 2
+  MaxNodes = 4
   Worlds <- QuickWorlds
-  Rich = FALSE
+  Rich = TRUE
   NumIter = 2
-  Sim = FALSE
+  Sim = TRUE
   Fine = TRUE
   Mutant = "none"
 INVARIANT PropertyHolds
